@@ -16,7 +16,9 @@ pub struct Op {
     pub id: usize,
 }
 
-pub const COLLECTIONS: [&str; 11] = ["types", "exports", "imports", "memories", "tables", "globals", "data", "elements", "funcs", "customs", "locals"];
+pub const COLLECTIONS: [&str; 15] = ["types", "exports", "imports", "memories", "tables", "globals", "data", "elements", "funcs", "customs", "locals",
+    // the same collections driven through their by-name / typed entry points
+    "exports_by_name", "imports_by_name", "customs_by_name", "customs_typed"];
 
 pub fn kind_of(coll: &str) -> &'static str {
     match coll {
@@ -211,6 +213,162 @@ impl Coll for Customs {
     }
 }
 
+// exports of functions, looked up by name (get_func + get_exported_func) and removed by name when the name is unique
+#[derive(Default)]
+struct ExportsByName {
+    ids: Vec<ExportId>,
+}
+impl Coll for ExportsByName {
+    fn add(&mut self, m: &mut Module, v: u32) -> usize {
+        let mut b = FunctionBuilder::new(&mut m.types, &[], &[]);
+        b.func_body().i32_const(v as i32).drop();
+        let f = b.finish(vec![], &mut m.funcs);
+        let id = m.exports.add(&format!("e{}", v), f);
+        self.ids.push(id);
+        id.index()
+    }
+    fn delete(&mut self, m: &mut Module, rid: usize) -> bool {
+        let Some(id) = self.ids.iter().copied().find(|i| i.index() == rid) else { return false };
+        let name = quiet(|| m.exports.get(id).name.clone());
+        match name {
+            Some(n) if m.exports.iter().filter(|e| e.name == n).count() == 1 => m.exports.remove(&n).is_ok(),
+            _ => quiet(|| m.exports.delete(id)).is_some(),
+        }
+    }
+    fn get(&self, m: &Module, rid: usize) -> Option<u32> {
+        let id = self.ids.iter().copied().find(|i| i.index() == rid)?;
+        quiet(|| m.exports.get(id).name[1..].parse().unwrap_or(9999))
+    }
+    fn iter(&self, m: &Module) -> Vec<(usize, u32)> {
+        m.exports.iter().map(|e| (e.id().index(), e.name[1..].parse().unwrap_or(9999))).collect()
+    }
+    fn find(&self, m: &Module, v: u32) -> Option<i64> {
+        Some(match m.exports.get_func(format!("e{}", v)) {
+            Ok(f) => m.exports.get_exported_func(f).map(|e| e.id().index() as i64).unwrap_or(-2),
+            Err(_) => -1,
+        })
+    }
+}
+
+// imports of functions, looked up by name (get_func + get_imported_func) and removed by name when the name is unique
+#[derive(Default)]
+struct ImportsByName {
+    ids: Vec<ImportId>,
+}
+impl Coll for ImportsByName {
+    fn add(&mut self, m: &mut Module, v: u32) -> usize {
+        let ty = m.types.add(&[], &[]);
+        let id = m.add_import_func("env", &format!("i{}", v), ty).1;
+        self.ids.push(id);
+        id.index()
+    }
+    fn delete(&mut self, m: &mut Module, rid: usize) -> bool {
+        let Some(id) = self.ids.iter().copied().find(|i| i.index() == rid) else { return false };
+        let name = quiet(|| m.imports.get(id).name.clone());
+        match name {
+            Some(n) if m.imports.iter().filter(|e| e.name == n).count() == 1 => m.imports.remove("env", &n).is_ok(),
+            _ => quiet(|| m.imports.delete(id)).is_some(),
+        }
+    }
+    fn get(&self, m: &Module, rid: usize) -> Option<u32> {
+        let id = self.ids.iter().copied().find(|i| i.index() == rid)?;
+        quiet(|| m.imports.get(id).name[1..].parse().unwrap_or(9999))
+    }
+    fn iter(&self, m: &Module) -> Vec<(usize, u32)> {
+        m.imports.iter().map(|e| (e.id().index(), e.name[1..].parse().unwrap_or(9999))).collect()
+    }
+    fn find(&self, m: &Module, v: u32) -> Option<i64> {
+        Some(match m.imports.get_func("env", format!("i{}", v)) {
+            Ok(f) => m.imports.get_imported_func(f).map(|e| e.id().index() as i64).unwrap_or(-2),
+            Err(_) => -1,
+        })
+    }
+}
+
+// raw custom sections removed by name (remove_raw) when the name is unique
+#[derive(Default)]
+struct CustomsByName {
+    inner: Customs,
+}
+impl Coll for CustomsByName {
+    fn add(&mut self, m: &mut Module, v: u32) -> usize {
+        self.inner.add(m, v)
+    }
+    fn delete(&mut self, m: &mut Module, rid: usize) -> bool {
+        match self.inner.get(m, rid) {
+            Some(v) if m.customs.iter().filter(|(_, s)| s.name() == format!("c{}", v)).count() == 1 => {
+                matches!(m.customs.remove_raw(&format!("c{}", v)), Some(r) if r.data == vec![v as u8])
+            }
+            _ => self.inner.delete(m, rid),
+        }
+    }
+    fn get(&self, m: &Module, rid: usize) -> Option<u32> {
+        self.inner.get(m, rid)
+    }
+    fn iter(&self, m: &Module) -> Vec<(usize, u32)> {
+        self.inner.iter(m)
+    }
+}
+
+/// a custom section type of the harness's own, reached through typed ids (get / get_mut / delete)
+#[derive(Debug)]
+struct Tagged {
+    v: u32,
+}
+impl CustomSection for Tagged {
+    fn name(&self) -> &str {
+        "wv.tagged"
+    }
+    fn data(&self, _: &IdsToIndices) -> std::borrow::Cow<'_, [u8]> {
+        vec![self.v as u8].into()
+    }
+}
+#[derive(Default)]
+struct CustomsTyped {
+    ids: Vec<TypedCustomSectionId<Tagged>>,
+    idx: Vec<usize>,
+}
+impl Coll for CustomsTyped {
+    fn add(&mut self, m: &mut Module, v: u32) -> usize {
+        let id = m.customs.add(Tagged { v });
+        let un: UntypedCustomSectionId = id.into();
+        let dbg = format!("{:?}", un);
+        let n: usize = dbg.rsplit("idx: ").next().map(|t| t.chars().take_while(|c| c.is_ascii_digit()).collect::<String>()).and_then(|t| t.parse().ok()).unwrap_or(usize::MAX);
+        self.ids.push(id);
+        self.idx.push(n);
+        n
+    }
+    fn delete(&mut self, m: &mut Module, rid: usize) -> bool {
+        let Some(p) = self.idx.iter().position(|x| *x == rid) else { return false };
+        let id = self.ids[p];
+        matches!(quiet(|| m.customs.delete(id)), Some(Some(_)))
+    }
+    fn get(&self, m: &Module, rid: usize) -> Option<u32> {
+        let p = self.idx.iter().position(|x| *x == rid)?;
+        let id = self.ids[p];
+        quiet(|| m.customs.get(id).map(|s| s.v)).flatten()
+    }
+    fn iter(&self, m: &Module) -> Vec<(usize, u32)> {
+        m.customs
+            .iter()
+            .map(|(id, s)| {
+                let p = self.ids.iter().position(|x| UntypedCustomSectionId::from(*x) == id).map(|p| self.idx[p]).unwrap_or(usize::MAX);
+                (p, s.as_any().downcast_ref::<Tagged>().map(|t| t.v).unwrap_or(9999))
+            })
+            .collect()
+    }
+    fn find(&self, m: &Module, v: u32) -> Option<i64> {
+        // get_typed: the first live section of the type; reported only when its value is the one asked for
+        match m.customs.get_typed::<Tagged>() {
+            Some(t) if t.v == v => {
+                let first = self.iter(m).into_iter().next().map(|x| x.0 as i64).unwrap_or(-2);
+                Some(first)
+            }
+            _ => None,
+        }
+    }
+}
+
 fn make(coll: &str) -> Box<dyn Coll> {
     match coll {
         "types" => Box::new(Types::default()),
@@ -224,6 +382,10 @@ fn make(coll: &str) -> Box<dyn Coll> {
         "funcs" => Box::new(Funcs::default()),
         "customs" => Box::new(Customs::default()),
         "locals" => Box::new(Locals::default()),
+        "exports_by_name" => Box::new(ExportsByName::default()),
+        "imports_by_name" => Box::new(ImportsByName::default()),
+        "customs_by_name" => Box::new(CustomsByName::default()),
+        "customs_typed" => Box::new(CustomsTyped::default()),
         _ => panic!("unknown collection {}", coll),
     }
 }
